@@ -9,6 +9,7 @@
 //	                                                           spelling, with generic RDATA -> NewRR -> PackRR = spec octets
 //	present record <layout> <pres> <events.ndjson> <n>         zoo records + n random records -> same round trip, events for TLC
 //	present reexec <layout> <pres> <events-in> <events-out>    re-run the records of events (confirmation / replay of a finding)
+//	present regreplay | regrecord | regreexec ...              the same while the registry of type mnemonics changes: reg.go
 //
 // Events (Trace_PresentRR): {key, origin, text, wire, hk}: text = the real String(), wire = the real PackRR of the same record
 // (trusted through C01), hk = the exotic items decoded with the standard library (decode.go).  TLC lexes the text with the
@@ -101,7 +102,7 @@ func loadPres(path string) *presTable {
 
 func main() {
 	if len(os.Args) < 5 {
-		hx.Die("usage: present replay|codes|record|reexec <layout> <pres> <file> ...")
+		hx.Die("usage: present replay|codes|record|reexec|regreplay|regrecord|regreexec <layout> <pres> <file> ...")
 	}
 	L = wire.LoadLayout(os.Args[2])
 	P = loadPres(os.Args[3])
@@ -115,6 +116,16 @@ func main() {
 		record(os.Args[4], n)
 	case "reexec":
 		reexec(os.Args[4], os.Args[5])
+	case "regreplay":
+		if len(os.Args) < 8 {
+			hx.Die("usage: present regreplay <layout> <pres> <probes> <states> <behaviours> <events>")
+		}
+		regreplay(os.Args[4], os.Args[5], os.Args[6], os.Args[7])
+	case "regrecord":
+		n, _ := strconv.Atoi(os.Args[5])
+		regrecord(os.Args[4], n)
+	case "regreexec":
+		regreexec(os.Args[4], os.Args[5])
 	default:
 		hx.Die("unknown mode %s", os.Args[1])
 	}
